@@ -1345,6 +1345,7 @@ def oracle_C27(run):
 def oracle_C24(run):
     out = []
     client = roles(run)
+    authority = {}          # (conn, stream) -> :authority of the request this client sent on it
     for i, (op, ol, ml, obs) in enumerate(run.log):
         if obs is None:
             continue
@@ -1352,6 +1353,15 @@ def oracle_C24(run):
         c = conn_of(op)
         sb = obs['snap_before']
         r = res(obs)
+        if o == 'send_headers' and client[c] and r[0] == 'ok' and op['sid'] not in sb['streams']:
+            for n, v, _ in op['headers']:
+                nb = n.encode('utf-8') if isinstance(n, str) else n
+                if nb.strip().lower() == b':authority':
+                    # the library remembers the first one; a list with several is judged by C14, not here
+                    if (c, op['sid']) in authority:
+                        authority[(c, op['sid'])] = None
+                    else:
+                        authority[(c, op['sid'])] = (v.encode('utf-8') if isinstance(v, str) else v).strip()
         if o == 'altsvc':
             origin, sid = op.get('origin'), op.get('sid')
             fr = raw_frames(obs.get('appended') or b'')
@@ -1418,6 +1428,9 @@ def oracle_C24(run):
                     continue
                 if want == 1 and f['sid'] == 0 and (evs[0].origin != forigin or evs[0].field_value != ffield):
                     out.append(fail('altsvc-event-fields', i))
+                elif want == 1 and f['sid'] != 0 and authority.get((c, f['sid'])) is not None and \
+                        (evs[0].origin != authority[(c, f['sid'])] or evs[0].field_value != ffield):
+                    out.append(fail('altsvc-event-not-the-request-authority', i, got=repr(evs[0].origin), want=repr(authority[(c, f['sid'])])))
             elif rfs is not None and evs and not any(f['type'] == wire.ALTSVC for f in rfs):
                 out.append(fail('altsvc-event-without-frame', i))
     return out
